@@ -1,20 +1,1263 @@
-// C19: configuration front-ends, end to end (filled in later).
+// C19: configuration front-ends, end to end (DESIGN 4 C19).
+//
+// Three run families, chosen by the plan:
+//   ini      - an INI file generated from a subset of the documented keys, loaded with
+//              configureFromIniFile / configure(QSettings, group)
+//   oneline  - gQtLogger.configure(path, size, count, options, async)
+//   handlers - histories of installMessageHandler / restorePreviousMessageHandler /
+//              foreign qInstallMessageHandler calls, probed with a marker message after each step
+//
+// The child redirects descriptors 1 and 2 to files, answers isatty() per plan, records
+// syslog() calls and write(2) calls on the log files (with the logical thread that made
+// them), and logs a generated stream from 1-4 threads under the scheduler.  The parent
+// reads everything back and compares with the documented semantics of the keys.
+#include <fcntl.h>
+#include <set>
+#include <sstream>
+#include <unistd.h>
+
+#include <QDir>
+#include <QFile>
+#include <QSettings>
+
 #include "events.h"
 #include "harness.h"
+#include "harness_int.h"
+#include "logdir.h"
+#include "model.h"
 #include "oracle.h"
+
+using namespace QtLogger;
 
 namespace tsim {
 
-Plan gen_C19(sim::Rng &, Plan p, bool)
+// ===================================================================== generator ====
+namespace {
+
+Op mkop19(const char *k, int a = 0, int b = 0, int c = 0, int d = 0, const std::string &s = std::string())
 {
+    Op o;
+    o.kind = k;
+    o.a = a;
+    o.b = b;
+    o.c = c;
+    o.d = d;
+    o.s = s;
+    return o;
+}
+
+const char *const kPayloads19[] = { "alpha", "beta", "gamma xx", "delta  spaced", "UPPER a", "zeta",
+                                    "eta %d %s {x}", "iota \xc3\xbc\xc3\xb1\xc3\xaf", "a", "xx end a" };
+
+Op gen_log19(sim::Rng &r, bool big_ok)
+{
+    static const int types[] = { 0, 4, 1, 2 };
+    int type = types[r.below(4)];
+    int cat = r.chance(2, 5) ? 0 : (int)r.below(kNumCategories);
+    int file = 1 + (int)r.below(kNumFiles - 1);
+    int func = 1 + (int)r.below(kNumFunctions - 1);
+    Op o = mkop19("log", type, cat, file | (func << 8), (int)r.below(2000), kPayloads19[r.below(10)]);
+    if (big_ok && r.chance(1, 6))
+        o.e = (int)r.range(40, 300);
+    return o;
+}
+
+// tri-state key: 0 absent, 1 true, 2 false
+int tri(sim::Rng &r, int p_absent, int p_true)
+{
+    int x = (int)r.below(100);
+    if (x < p_absent)
+        return 0;
+    return x < p_absent + p_true ? 1 : 2;
+}
+
+} // namespace
+
+Plan gen_C19(sim::Rng &r, Plan p, bool thorough)
+{
+    p.target = "logger";
+    p.poison = true;
+    p.root = Node();
+    p.root.kind = "pipe";
+    int f = (int)r.below(10);
+    std::string family = f < 2 ? "handlers" : (f < 7 ? "ini" : "oneline");
+    QJsonObject cfg;
+    cfg["family"] = QString::fromStdString(family);
+
+    if (family == "handlers") {
+        p.app = false;
+        int n = (int)r.range(2, thorough ? 14 : 9);
+        for (int i = 0; i < n; i++) {
+            int x = (int)r.below(10);
+            if (x < 4)
+                p.main_ops.push_back(mkop19("install"));
+            else if (x < 7)
+                p.main_ops.push_back(mkop19("restore"));
+            else
+                p.main_ops.push_back(mkop19("foreign", (int)r.below(3)));
+        }
+        p.cfg = cfg;
+        p.sched_seed = r.next();
+        p.strategy = 0;
+        return p;
+    }
+
+    bool async = false;
+    bool has_path = false;
+    int limit_size = 0;
+    if (family == "ini") {
+        QJsonObject k;
+        if (r.chance(1, 2))
+            k["filter_rules"] = (int)r.below(kNumCatRules);
+        if (r.chance(1, 3))
+            k["regexp_filter"] = (int)r.below(3);
+        if (r.chance(1, 2))
+            k["message_pattern"] = (int)r.below(kNumPatterns);
+        static const char *cons[] = { "stdout", "stdout_color", "stderr", "stderr_color" };
+        for (auto c : cons) {
+            int t = tri(r, 50, 35);
+            if (t)
+                k[c] = t == 1;
+        }
+        int pl = tri(r, 40, 20);
+        if (pl)
+            k["platform_std_log"] = pl == 1;
+        if (r.chance(1, 3))
+            k["syslog_ident"] = r.chance(1, 2) ? "myapp" : "qtl-verif";
+        if (r.chance(3, 5)) {
+            has_path = true;
+            k["path"] = true;
+            static const int sizes[] = { -1, -1, 0, 150, 400, 5000 };
+            int sz = sizes[r.below(6)];
+            if (sz >= 0)
+                k["max_file_size"] = sz;
+            limit_size = sz < 0 ? 1048576 : sz;
+            static const int counts[] = { -2, -2, 0, 1, 2, 3, 50 };
+            int cn = counts[r.below(7)];
+            if (cn > -2)
+                k["max_file_count"] = cn;
+            int t = tri(r, 40, 30);
+            if (t)
+                k["rotate_on_startup"] = t == 1;
+            t = tri(r, 60, 25);
+            if (t)
+                k["rotate_daily"] = t == 1;
+            t = tri(r, 50, 30);
+            if (t)
+                k["compress_old_files"] = t == 1;
+        }
+        int a = tri(r, 40, 35);
+        if (a)
+            k["async"] = a == 1;
+        async = a == 1;
+        cfg["keys"] = k;
+        cfg["group"] = r.chance(3, 4) ? "logger" : "mylog";
+        cfg["via_settings_object"] = r.chance(1, 3);
+    } else {
+        QJsonObject o;
+        has_path = r.chance(7, 10);
+        o["path"] = has_path;
+        static const int sizes[] = { 0, 0, 200, 1000, 100000 };
+        static const int counts[] = { 0, 0, 1, 2, 3, 5, -1 };
+        int sz = sizes[r.below(5)];
+        o["size"] = sz;
+        limit_size = sz;
+        o["count"] = counts[r.below(7)];
+        o["options"] = (int)r.below(8);
+        async = r.chance(1, 2);
+        o["async"] = async;
+        cfg["oneline"] = o;
+    }
+    cfg["tty1"] = (int)r.below(2);
+    cfg["tty2"] = (int)r.below(2);
+    cfg["preexisting"] = (has_path && r.chance(1, 3)) ? (int)r.range(1, 300) : 0;
+    cfg["logger"] = r.chance(1, 2) ? "singleton" : "heap";
+    p.app = async ? r.chance(5, 6) : r.chance(1, 2);
+    std::string stop = "none";
+    if (async)
+        stop = (p.app && r.chance(1, 2)) ? "exec_quit" : "reset";
+    cfg["stop"] = QString::fromStdString(stop);
+    p.cfg = cfg;
+
+    bool big_ok = has_path && limit_size > 0 && limit_size < 10000;
+    int np = (int)r.range(0, 3);
+    for (int i = 0; i < np; i++) {
+        std::vector<Op> ops;
+        int n = r.chance(1, 8) ? (int)r.range(7, 14) : (int)r.range(1, 6);
+        for (int k = 0; k < n; k++) {
+            if (r.chance(1, 4))
+                ops.push_back(r.chance(1, 2) ? mkop19("yield") : mkop19("sleep", (int)r.range(1, 8000)));
+            ops.push_back(gen_log19(r, big_ok));
+        }
+        p.producers.push_back(ops);
+    }
+    int n0 = (int)r.range(np ? 0 : 1, 6);
+    int cut = n0 ? (int)r.below(n0 + 1) : 0;
+    for (int i = 0; i < cut; i++)
+        p.main_ops.push_back(gen_log19(r, big_ok));
+    for (int i = 0; i < np; i++)
+        p.main_ops.push_back(mkop19("spawn", i + 1));
+    for (int i = cut; i < n0; i++)
+        p.main_ops.push_back(gen_log19(r, big_ok));
+    p.main_ops.push_back(mkop19("join", -1));
+    if (stop == "exec_quit")
+        p.main_ops.push_back(mkop19("exec_quit"));
+    else if (stop == "reset")
+        p.main_ops.push_back(mkop19("reset"));
+    if (r.chance(1, 4))
+        p.main_ops.push_back(gen_log19(r, false)); // after the stop: synchronous
+
+    p.sched_seed = r.next();
+    p.strategy = (int)r.below(4);
+    p.pct_depth = (int)r.range(1, 3);
+    static const int yp[] = { 100, 100, 60, 30, 10 };
+    p.yield_pct = yp[r.below(5)];
+    static const int ta[] = { 0, 10, 20, 40 };
+    p.time_adv_pct = ta[r.below(4)];
+    p.spurious_pm = 0;
     return p;
 }
-void run_child_c19(const Plan &, const std::string &)
+
+// ========================================================================= child ====
+namespace {
+
+// foreign handlers of the install/restore histories
+int probe_step(const QString &msg)
 {
+    // "probe <n>"
+    if (!msg.startsWith(QLatin1String("probe ")))
+        return -1;
+    return msg.mid(6).toInt();
+}
+void foreign0(QtMsgType, const QMessageLogContext &, const QString &m)
+{
+    sim::ev(E_ACTIVE, probe_step(m), 0);
+}
+void foreign1(QtMsgType, const QMessageLogContext &, const QString &m)
+{
+    sim::ev(E_ACTIVE, probe_step(m), 1);
+}
+void foreign2(QtMsgType, const QMessageLogContext &, const QString &m)
+{
+    sim::ev(E_ACTIVE, probe_step(m), 2);
+}
+const QtMessageHandler kForeign[] = { foreign0, foreign1, foreign2 };
+
+[[noreturn]] void run_handlers(const Plan &P)
+{
+    Logger *logger = new Logger();
+    logger->append(FunctionHandlerPtr::create([](LogMessage &lm) {
+        sim::ev(E_ACTIVE, probe_step(lm.message()), 100);
+        return true;
+    }));
+    sim::SchedConfig sc = sched_config(P);
+    sim::begin(sc);
+    auto probe = [](int step) {
+        QByteArray t = "probe " + QByteArray::number(step);
+        sim::ev(E_OP_BEGIN, step);
+        QMessageLogger("h.cpp", step, "void h()", "default").info("%s", t.constData());
+        sim::ev(E_OP_END, step);
+    };
+    probe(0);
+    for (size_t i = 0; i < P.main_ops.size(); i++) {
+        const Op &op = P.main_ops[i];
+        if (op.kind == "install")
+            logger->installMessageHandler();
+        else if (op.kind == "restore")
+            Logger::restorePreviousMessageHandler();
+        else if (op.kind == "foreign")
+            qInstallMessageHandler(kForeign[op.a % 3]);
+        probe((int)i + 1);
+    }
+    sim::end();
     sim::finish_run(sim::ST_DONE);
 }
-Verdict judge_c19(const Plan &, const sim::Shm *, const ChildExit &, const std::string &, Verdict v)
+
+void write_ini(const Plan &P, const QString &iniPath, const QString &logPath)
 {
+    QJsonObject k = P.cfg["keys"].toObject();
+    QString group = P.cfg["group"].toString();
+    QSettings s(iniPath, QSettings::IniFormat);
+    s.beginGroup(group);
+    for (auto it = k.begin(); it != k.end(); ++it) {
+        const QString key = it.key();
+        if (key == "filter_rules")
+            s.setValue(key, QString::fromUtf8(kCatRuleMenu[it.value().toInt() % kNumCatRules]));
+        else if (key == "regexp_filter")
+            s.setValue(key, QString::fromUtf8(kRegexMenu[it.value().toInt() % kNumRegex]));
+        else if (key == "message_pattern")
+            s.setValue(key, QString::fromUtf8(kPatternMenu[it.value().toInt() % kNumPatterns]));
+        else if (key == "path")
+            s.setValue(key, logPath);
+        else if (key == "syslog_ident")
+            s.setValue(key, it.value().toString());
+        else if (it.value().isBool())
+            s.setValue(key, it.value().toBool());
+        else
+            s.setValue(key, it.value().toInt());
+    }
+    s.endGroup();
+    s.sync();
+}
+
+} // namespace
+
+void run_child_c19(const Plan &P, const std::string &rundir)
+{
+    C = new Ctx();
+    C->plan = &P;
+    C->rundir = rundir;
+    for (int i = 0; i < 64; i++)
+        C->producer_tid[i] = -1;
+    alarm(20);
+    sim::clock_set(1767225600ll * sim::SEC + 12 * 3600 * sim::SEC, 1000 * sim::SEC);
+
+    std::string family = P.cfg["family"].toString().toStdString();
+    {
+        int fd = ::open((rundir + "/stderr.txt").c_str(), O_WRONLY | O_CREAT | O_TRUNC | O_APPEND, 0644);
+        if (fd >= 0) {
+            dup2(fd, 2);
+            ::close(fd);
+        }
+        fd = ::open((rundir + "/stdout.txt").c_str(), O_WRONLY | O_CREAT | O_TRUNC | O_APPEND, 0644);
+        if (fd >= 0) {
+            dup2(fd, 1);
+            ::close(fd);
+        }
+    }
+    if (family == "handlers")
+        run_handlers(P);
+
+    sim::set_isatty(P.cfg["tty1"].toInt(), P.cfg["tty2"].toInt());
+    if (P.app) {
+        static int argc = 1;
+        static char a0[] = "tsim";
+        static char *argv[] = { a0, nullptr };
+        C->app = new QCoreApplication(argc, argv);
+        install_quit_begin_marker();
+    }
+    QDir().mkpath(QString::fromStdString(rundir) + "/logs");
+    QDir().mkpath(QString::fromStdString(rundir) + "/cfg");
+    QString logPath = QString::fromStdString(rundir) + "/logs/app.log";
+    int pre = P.cfg["preexisting"].toInt();
+    if (pre > 0) {
+        QFile f(logPath);
+        if (f.open(QIODevice::WriteOnly)) {
+            QByteArray line = "pre-existing line\n";
+            QByteArray data;
+            while (data.size() < pre)
+                data += line;
+            f.write(data);
+            f.close();
+            // written an hour before the run began, by the virtual clock
+            sim::fs_stamp(logPath.toLocal8Bit().constData(), sim::wall_now() - 3600 * sim::SEC);
+        }
+    }
+
+    sim::FsConfig fc;
+    fc.root = rundir + "/logs";
+    fc.granularity_ns = sim::MS;
+    fc.record_writes = true;
+    sim::fs_arm(fc);
+
+    bool singleton = P.cfg["logger"].toString() == "singleton";
+    Logger *logger = singleton ? Logger::instance() : new Logger();
+    C->logger = logger;
+    C->oth = logger;
+    C->singleton = singleton;
+
+    QString iniPath = QString::fromStdString(rundir) + "/cfg/logging.ini";
+    if (family == "ini")
+        write_ini(P, iniPath, logPath);
+
+    sim::SchedConfig sc = sched_config(P);
+    sim::begin(sc);
+    C->producer_tid[0] = 0;
+    note_thread();
+
+    int before = sim::thread_count();
+    sim::ev(E_OP_BEGIN, -1);
+    if (family == "ini") {
+        QString group = P.cfg["group"].toString();
+        if (P.cfg["via_settings_object"].toBool()) {
+            QSettings s(iniPath, QSettings::IniFormat);
+            logger->configure(s, group);
+        } else if (group == "logger" && P.seed % 2 == 0) {
+            logger->configureFromIniFile(iniPath);
+        } else {
+            logger->configureFromIniFile(iniPath, group);
+        }
+    } else {
+        QJsonObject o = P.cfg["oneline"].toObject();
+        logger->configure(o["path"].toBool() ? logPath : QString(), o["size"].toInt(), o["count"].toInt(),
+                          RotatingFileSink::Options(o["options"].toInt()), o["async"].toBool());
+    }
+    if (sim::thread_count() > before) {
+        sim::set_thread_name(before, "worker");
+        if (before < 64)
+            C->is_worker[before] = true;
+        sim::ev(E_WORKER_TID, before);
+    }
+    sim::ev(E_ASYNC_STATE, logger->ownThreadIsRunning() ? 1 : 0);
+    sim::ev(E_OP_END, -1);
+
+    run_ops(0, P.main_ops);
+
+    // make the file sinks' buffered tail visible (public API), then leave without destructors
+    sim::ev(E_NOTE, 0, 0, 0, "final-flush", 11);
+    logger->flush();
+    sim::end();
+    sim::finish_run(sim::ST_DONE);
+}
+
+// ======================================================================== oracle ====
+namespace {
+
+using namespace model;
+
+void fail19(Verdict &v, const std::string &cls, const std::string &msg, const std::string &sig = std::string())
+{
+    if (!v.ok)
+        return;
+    v.ok = false;
+    v.cls = cls;
+    v.msg = msg;
+    v.signature = sig.empty() ? cls : sig;
+}
+
+std::string expected_text19(int producer, int opidx, const Op &op)
+{
+    std::string t = "m" + std::to_string(producer) + "." + std::to_string(opidx) + " " + op.s;
+    if (op.e > 0) {
+        t += ' ';
+        std::string pad(op.e, 'p');
+        for (int i = 0; i < op.e; i += 64)
+            pad[i] = char('A' + (i / 64) % 26);
+        t += pad;
+    }
+    return t;
+}
+
+// the harness's own scanner for ANSI SGR sequences: ESC [ digits and ';' m
+std::string strip_ansi(const std::string &s, int *nseq = nullptr)
+{
+    std::string o;
+    size_t i = 0;
+    int n = 0;
+    while (i < s.size()) {
+        if (s[i] == '\033' && i + 1 < s.size() && s[i + 1] == '[') {
+            size_t j = i + 2;
+            while (j < s.size() && (isdigit((unsigned char)s[j]) || s[j] == ';'))
+                j++;
+            if (j < s.size() && s[j] == 'm') {
+                i = j + 1;
+                n++;
+                continue;
+            }
+        }
+        o += s[i++];
+    }
+    if (nseq)
+        *nseq = n;
+    return o;
+}
+
+const char *color_prefix(int type)
+{
+    switch (type) {
+    case 0:
+        return "\033[90m";
+    case 4:
+        return "\033[32m";
+    case 1:
+        return "\033[33m";
+    case 2:
+        return "\033[31m";
+    case 3:
+        return "\033[1;91m";
+    }
+    return "";
+}
+
+struct Call19
+{
+    int cid = -1, producer = 0, opidx = 0;
+    const Op *op = nullptr;
+    std::string text;
+    long invoke = -1, ret = -1;
+    std::vector<long long> wall;
+    bool passes = true;
+};
+
+struct Cfg19
+{
+    bool ini = false;
+    int rules = -1, regex = -1, pattern = -1;
+    int pretty_width = 0; // pretty formatter's alignment width (one-line: 15)
+    bool embedded_colour = false; // one-line: the formatter itself colours
+    int n_stdout = 0, n_stderr = 0, n_platform = 0;
+    bool stdout_colour = false, stderr_colour = false;
+    bool syslog = false;
+    std::string ident;
+    bool file = false;
+    int L = 0, N = 0;
+    bool startup = false, daily = false, compress = false;
+    bool rotating = true;
+    bool async = false;
+    int tty1 = 0, tty2 = 0, pre = 0;
+};
+
+Cfg19 read_cfg(const Plan &plan)
+{
+    Cfg19 c;
+    c.tty1 = plan.cfg["tty1"].toInt();
+    c.tty2 = plan.cfg["tty2"].toInt();
+    c.pre = plan.cfg["preexisting"].toInt();
+    if (plan.cfg["family"].toString() == "ini") {
+        c.ini = true;
+        QJsonObject k = plan.cfg["keys"].toObject();
+        auto b = [&](const char *key, bool def) { return k.contains(key) ? k[key].toBool() : def; };
+        if (k.contains("filter_rules"))
+            c.rules = k["filter_rules"].toInt();
+        if (k.contains("regexp_filter"))
+            c.regex = k["regexp_filter"].toInt();
+        if (k.contains("message_pattern"))
+            c.pattern = k["message_pattern"].toInt();
+        bool so = b("stdout", false), soc = b("stdout_color", false);
+        bool se = b("stderr", false), sec = b("stderr_color", false);
+        c.n_stdout = (so || soc) ? 1 : 0;
+        c.stdout_colour = soc && c.tty1;
+        c.n_stderr = (se || sec) ? 1 : 0;
+        c.stderr_colour = sec && c.tty2;
+        c.n_platform = b("platform_std_log", true) ? 1 : 0;
+        if (k.contains("syslog_ident")) {
+            c.syslog = true;
+            c.ident = k["syslog_ident"].toString().toStdString();
+        }
+        if (k.contains("path")) {
+            c.file = true;
+            c.L = k.contains("max_file_size") ? k["max_file_size"].toInt() : 1048576;
+            c.N = k.contains("max_file_count") ? k["max_file_count"].toInt() : 5;
+            c.startup = b("rotate_on_startup", true);
+            c.daily = b("rotate_daily", false);
+            c.compress = b("compress_old_files", false);
+            c.rotating = true;
+        }
+        c.async = b("async", false);
+    } else {
+        QJsonObject o = plan.cfg["oneline"].toObject();
+        c.pretty_width = 15;
+        c.embedded_colour = true;
+        c.n_platform = 1;
+        c.file = o["path"].toBool();
+        c.L = o["size"].toInt();
+        c.N = o["count"].toInt();
+        int opt = o["options"].toInt();
+        c.startup = opt & 1;
+        c.daily = opt & 2;
+        c.compress = opt & 4;
+        c.rotating = c.L > 0 || c.startup || c.daily;
+        c.async = o["async"].toBool();
+    }
+    return c;
+}
+
+std::vector<std::string> file_lines(const std::string &path)
+{
+    std::string raw;
+    logdir::read_file(path, raw);
+    return logdir::split_lines(raw);
+}
+
+// which of the plan's messages does this (colour-stripped) line carry?
+int map_line(const std::string &ln, const std::map<int, Call19> &calls)
+{
+    for (size_t k = 0; k + 3 < ln.size(); k++) {
+        if (ln[k] != 'm' || !isdigit((unsigned char)ln[k + 1]))
+            continue;
+        size_t j = k + 1;
+        int p = 0, i = 0;
+        while (j < ln.size() && isdigit((unsigned char)ln[j]))
+            p = p * 10 + (ln[j++] - '0');
+        if (j >= ln.size() || ln[j] != '.')
+            continue;
+        j++;
+        size_t j0 = j;
+        while (j < ln.size() && isdigit((unsigned char)ln[j]))
+            i = i * 10 + (ln[j++] - '0');
+        if (j == j0 || j >= ln.size() || ln[j] != ' ')
+            continue;
+        auto it = calls.find(call_id(p, i));
+        if (it != calls.end() && ln.compare(k, it->second.text.size(), it->second.text) == 0)
+            return it->first;
+    }
+    return -1;
+}
+
+struct Line
+{
+    std::string raw, plain;
+    int cid = -1;
+    int nseq = 0;
+};
+
+std::vector<Line> classify(const std::vector<std::string> &raw, const std::map<int, Call19> &calls)
+{
+    std::vector<Line> out;
+    for (auto &r : raw) {
+        Line l;
+        l.raw = r;
+        l.plain = strip_ansi(r, &l.nseq);
+        l.cid = map_line(l.plain, calls);
+        out.push_back(l);
+    }
+    return out;
+}
+
+std::string mname(const Call19 &c)
+{
+    return clip(c.text, 40);
+}
+
+// The formatted text every output must carry for a message, evaluated by the reference model
+// in the order the output itself shows (stateful formatters depend on arrival order).
+struct Formatter19
+{
+    Model model;
+    Node root;
+    explicit Formatter19(const Cfg19 &cfg)
+    {
+        root.kind = "pipe";
+        root.a = 0;
+        Node f;
+        if (cfg.pattern >= 0) {
+            f.kind = "pattern";
+            f.a = cfg.pattern;
+        } else {
+            f.kind = "pretty";
+            f.a = cfg.pretty_width;
+        }
+        f.id = 1;
+        Node r;
+        r.kind = "rec";
+        r.a = 0;
+        r.id = 2;
+        root.kids.push_back(f);
+        root.kids.push_back(r);
+    }
+    // expected texts, one per candidate timestamp of the call
+    bool matches(const Call19 &c, const std::string &observed, bool commit)
+    {
+        std::vector<long long> cand;
+        for (long long w : c.wall) {
+            long long ms = w / 1000000;
+            bool dup = false;
+            for (long long x : cand)
+                if (x / 1000 == ms / 1000)
+                    dup = true;
+            if (!dup)
+                cand.push_back(ms);
+        }
+        if (cand.empty())
+            cand.push_back(0);
+        MState saved = model.st;
+        bool ok = false;
+        MState after = saved;
+        for (long long ms : cand) {
+            model.st = saved;
+            model.out.clear();
+            Msg m;
+            m.cid = c.cid;
+            m.type = c.op->a;
+            m.line = c.op->d;
+            const char *xf = kFiles[(c.op->c & 0xff) % kNumFiles];
+            const char *xfn = kFunctions[((c.op->c >> 8) & 0xff) % kNumFunctions];
+            m.file = xf ? xf : "";
+            m.function = xfn ? xfn : "";
+            m.category = kCategories[c.op->b % kNumCategories];
+            m.message = c.text;
+            m.time_ms = ms;
+            model.eval(root, m);
+            after = model.st;
+            if (!model.out.empty() && match_with_field(model.out[0].text, 0, observed, 0, nullptr)) {
+                ok = true;
+                break;
+            }
+        }
+        model.st = commit ? after : saved;
+        model.out.clear();
+        return ok;
+    }
+    std::string example(const Call19 &c)
+    {
+        MState saved = model.st;
+        model.out.clear();
+        Msg m;
+        m.cid = c.cid;
+        m.type = c.op->a;
+        m.line = c.op->d;
+        const char *xf = kFiles[(c.op->c & 0xff) % kNumFiles];
+        const char *xfn = kFunctions[((c.op->c >> 8) & 0xff) % kNumFunctions];
+        m.file = xf ? xf : "";
+        m.function = xfn ? xfn : "";
+        m.category = kCategories[c.op->b % kNumCategories];
+        m.message = c.text;
+        m.time_ms = c.wall.empty() ? 0 : c.wall[0] / 1000000;
+        model.eval(root, m);
+        std::string r = model.out.empty() ? std::string() : model.out[0].text;
+        model.st = saved;
+        model.out.clear();
+        return r;
+    }
+};
+
+// One output (stdout, stderr, log file): lines -> counts, order, text
+struct OutputCheck
+{
+    std::string name;
+    int copies = 0; // expected copies of every passing message
+    bool tolerate_oldest_missing = false; // retention at work
+    bool check_text = true;
+};
+
+void check_output(Verdict &v, const OutputCheck &oc, const std::vector<Line> &lines, std::map<int, Call19> &calls,
+                  const Cfg19 &cfg, std::map<int, int> *counts_out)
+{
+    std::map<int, int> count;
+    std::vector<int> first_order;
+    for (auto &l : lines)
+        if (l.cid >= 0) {
+            if (count[l.cid]++ == 0)
+                first_order.push_back(l.cid);
+        }
+    if (counts_out)
+        *counts_out = count;
+    // copies
+    std::vector<const Call19 *> missing;
+    for (auto &kv : calls) {
+        const Call19 &c = kv.second;
+        if (c.ret < 0)
+            continue;
+        int n = count.count(c.cid) ? count[c.cid] : 0;
+        int want = c.passes ? oc.copies : 0;
+        if (n == want)
+            continue;
+        if (!c.passes && n > 0) {
+            fail19(v, "filtered-message-delivered",
+                   oc.name + ": message " + mname(c) + " must be rejected by the configured filters but was written "
+                           + std::to_string(n) + " time(s)",
+                   "filtered-message-delivered/" + oc.name);
+        } else if (want == 0 && n > 0) {
+            fail19(v, "output-not-configured",
+                   oc.name + " is not configured but received message " + mname(c),
+                   "output-not-configured/" + oc.name);
+        } else if (n > want) {
+            fail19(v, "duplicate-output",
+                   oc.name + ": message " + mname(c) + " appears " + std::to_string(n) + " times, expected "
+                           + std::to_string(want),
+                   "duplicate-output/" + oc.name);
+        } else if (n == 0 && oc.tolerate_oldest_missing) {
+            missing.push_back(&c);
+        } else {
+            fail19(v, "missing-output",
+                   oc.name + ": message " + mname(c) + " appears " + std::to_string(n) + " times, expected "
+                           + std::to_string(want),
+                   "missing-output/" + oc.name);
+        }
+    }
+    for (const Call19 *m : missing) {
+        bool older_present = false;
+        for (auto &kv : calls)
+            if (count.count(kv.first) && count[kv.first] > 0 && kv.second.ret >= 0 && m->invoke >= 0
+                && kv.second.ret < m->invoke)
+                older_present = true;
+        if (older_present)
+            fail19(v, "missing-output",
+                   oc.name + ": message " + mname(*m) + " is missing although messages logged before it are present",
+                   "missing-output/" + oc.name);
+    }
+    // order: per producer, and real-time precedence
+    std::map<int, int> last;
+    for (int cid : first_order) {
+        const Call19 &c = calls[cid];
+        auto it = last.find(c.producer);
+        if (it != last.end() && it->second > c.opidx)
+            fail19(v, "reordered-output", oc.name + ": messages of thread " + std::to_string(c.producer) + " are out of order",
+                   "reordered-output/" + oc.name);
+        last[c.producer] = c.opidx;
+    }
+    for (size_t i = 0; i < first_order.size() && v.ok; i++)
+        for (size_t j = i + 1; j < first_order.size(); j++) {
+            const Call19 &a = calls[first_order[i]], &b = calls[first_order[j]];
+            if (b.ret >= 0 && a.invoke >= 0 && b.ret < a.invoke) {
+                fail19(v, "reordered-output",
+                       oc.name + ": message " + mname(b) + " was logged before " + mname(a) + " but is written after it",
+                       "reordered-output/" + oc.name);
+                break;
+            }
+        }
+    // text, evaluated in the order this output shows
+    Formatter19 fm(cfg);
+    std::set<int> seen;
+    for (auto &l : lines) {
+        if (l.cid < 0 || !v.ok || !oc.check_text)
+            continue;
+        Call19 &c = calls[l.cid];
+        bool first = seen.insert(l.cid).second;
+        if (!fm.matches(c, l.plain, first)) {
+            fail19(v, "wrong-format",
+                   oc.name + ": message " + mname(c) + " is written as '" + clip(l.plain, 120) + "', expected '"
+                           + clip(fm.example(c), 120) + "'",
+                   "wrong-format/" + oc.name);
+        }
+    }
+}
+
+Verdict judge_handlers(const Plan &plan, const sim::Shm *shm, Verdict v)
+{
+    const uint32_t N = shm->nevents < sim::MAX_EVENTS ? shm->nevents : sim::MAX_EVENTS;
+    std::map<int, std::vector<int>> seen; // step -> receivers
+    for (uint32_t i = 0; i < N; i++)
+        if (shm->events[i].kind == E_ACTIVE)
+            seen[(int)shm->events[i].a].push_back((int)shm->events[i].b);
+    // reference: possible (current, saved) states; -1 = Qt's default handler, 100 = the logger, -2 = nothing saved
+    const int D = -1, L = 100, NONE = -2;
+    std::set<std::pair<int, int>> states = { { D, NONE } };
+    auto name = [&](int h) {
+        return h == D ? std::string("Qt's default handler") : (h == L ? std::string("the logger") : "foreign handler F" + std::to_string(h));
+    };
+    std::string history = "start";
+    int restores_leaving_foreign = 0, installs_over_foreign = 0;
+    for (size_t i = 0; i <= plan.main_ops.size(); i++) {
+        if (i > 0) {
+            const Op &op = plan.main_ops[i - 1];
+            std::set<std::pair<int, int>> next;
+            for (auto st : states) {
+                int cur = st.first, saved = st.second;
+                if (op.kind == "install") {
+                    if (cur != L) {
+                        if (saved == NONE)
+                            saved = cur;
+                        else
+                            installs_over_foreign++;
+                        cur = L;
+                    }
+                    next.insert({ cur, saved });
+                } else if (op.kind == "foreign") {
+                    next.insert({ op.a % 3, saved });
+                } else if (op.kind == "restore") {
+                    if (saved == NONE) {
+                        next.insert({ cur, saved });
+                    } else if (cur == L) {
+                        next.insert({ saved, NONE });
+                    } else {
+                        // a newer foreign handler stays; whether the remembered handler is forgotten
+                        // is not fixed by the statement: both continuations are accepted
+                        restores_leaving_foreign++;
+                        next.insert({ cur, NONE });
+                        next.insert({ cur, saved });
+                    }
+                }
+            }
+            states = next;
+            history += ", " + op.kind + (op.kind == "foreign" ? " F" + std::to_string(op.a % 3) : "");
+        }
+        int got = D;
+        auto it = seen.find((int)i);
+        if (it != seen.end()) {
+            if (it->second.size() > 1) {
+                fail19(v, "marker-delivered-twice", "after '" + history + "' the marker message reached "
+                               + std::to_string(it->second.size()) + " handlers");
+                return v;
+            }
+            got = it->second[0];
+        }
+        std::set<std::pair<int, int>> keep;
+        for (auto st : states)
+            if (st.first == got)
+                keep.insert(st);
+        if (keep.empty()) {
+            std::string want;
+            std::set<int> w;
+            for (auto st : states)
+                w.insert(st.first);
+            for (int h : w)
+                want += (want.empty() ? "" : " or ") + name(h);
+            bool after_restore = i > 0 && plan.main_ops[i - 1].kind == "restore";
+            fail19(v, after_restore ? "restore-wrong-handler" : "wrong-active-handler",
+                   "after '" + history + "' messages go to " + name(got) + ", expected " + want,
+                   after_restore ? "restore-wrong-handler" : "wrong-active-handler");
+            return v;
+        }
+        states = keep;
+    }
+    v.probes["handler_history_steps"] = (int)plan.main_ops.size();
+    v.probes["restore_left_newer_foreign_handler"] = restores_leaving_foreign;
+    v.probes["install_after_foreign_handler"] = installs_over_foreign;
+    return v;
+}
+
+} // namespace
+
+Verdict judge_c19(const Plan &plan, const sim::Shm *shm, const ChildExit &, const std::string &rundir, Verdict v)
+{
+    if (!v.ok)
+        return v;
+    if (shm->status == sim::ST_SIMFAIL) {
+        fail19(v, shm->fail_class, shm->fail_msg);
+        return v;
+    }
+    if (shm->status != sim::ST_DONE) {
+        fail19(v, "crash", "the run did not reach its end (status " + std::to_string(shm->status) + ")");
+        return v;
+    }
+    if (plan.cfg["family"].toString() == "handlers")
+        return judge_handlers(plan, shm, v);
+
+    const uint32_t N = shm->nevents < sim::MAX_EVENTS ? shm->nevents : sim::MAX_EVENTS;
+    Cfg19 cfg = read_cfg(plan);
+
+    std::map<int, Call19> calls;
+    auto add = [&](int producer, const std::vector<Op> &ops) {
+        for (size_t i = 0; i < ops.size(); i++)
+            if (ops[i].kind == "log") {
+                Call19 c;
+                c.cid = call_id(producer, (int)i);
+                c.producer = producer;
+                c.opidx = (int)i;
+                c.op = &ops[i];
+                c.text = expected_text19(producer, (int)i, ops[i]);
+                std::string cat = kCategories[ops[i].b % kNumCategories];
+                c.passes = (cfg.rules < 0 || cat_verdict(cfg.rules, cat, ops[i].a))
+                        && (cfg.regex < 0 || regex_verdict(cfg.regex, c.text));
+                calls[c.cid] = c;
+            }
+    };
+    add(0, plan.main_ops);
+    for (size_t p = 0; p < plan.producers.size(); p++)
+        add((int)p + 1, plan.producers[p]);
+
+    long stop_begin = -1, final_flush = -1;
+    int worker = -1, async_state = -1;
+    struct SysEv
+    {
+        int prio;
+        std::string text;
+    };
+    std::vector<SysEv> sys;
+    std::vector<std::string> idents;
+    struct Wr
+    {
+        long idx;
+        int tid;
+        std::string path;
+    };
+    std::vector<Wr> writes;
+    for (uint32_t i = 0; i < N; i++) {
+        const sim::Event &e = shm->events[i];
+        switch (e.kind) {
+        case E_INVOKE: {
+            auto it = calls.find((int)e.a);
+            if (it != calls.end())
+                it->second.invoke = i;
+            break;
+        }
+        case E_RETURN: {
+            auto it = calls.find((int)e.a);
+            if (it != calls.end()) {
+                it->second.ret = i;
+                std::string s = sim::ev_str(shm, e);
+                size_t semi = s.find(';');
+                std::istringstream is(s.substr(1, semi == std::string::npos ? std::string::npos : semi - 1));
+                long long w;
+                while (is >> w)
+                    it->second.wall.push_back(w);
+            }
+            break;
+        }
+        case E_STOP_BEGIN:
+            if (stop_begin < 0)
+                stop_begin = i;
+            break;
+        case E_WORKER_TID:
+            worker = (int)e.a;
+            break;
+        case E_ASYNC_STATE:
+            async_state = (int)e.a;
+            break;
+        case E_NOTE:
+            final_flush = i;
+            break;
+        case sim::EV_SYSLOG:
+            sys.push_back({ (int)e.a, sim::ev_str(shm, e) });
+            break;
+        case sim::EV_OPENLOG:
+            idents.push_back(sim::ev_str(shm, e));
+            break;
+        case sim::EV_FS_WRITE:
+            writes.push_back({ (long)i, e.tid, sim::ev_str(shm, e) });
+            break;
+        default:
+            break;
+        }
+    }
+
+    // ---- asynchronous mode as configured ------------------------------------------------
+    if (async_state != (cfg.async ? 1 : 0))
+        fail19(v, "async-mismatch",
+               std::string("the configuration asks for ") + (cfg.async ? "asynchronous" : "synchronous")
+                       + " logging but ownThreadIsRunning() is " + (async_state ? "true" : "false"));
+    if (cfg.async) {
+        long until = stop_begin >= 0 ? stop_begin : (final_flush >= 0 ? final_flush : (long)N);
+        for (auto &w : writes)
+            if (w.idx < until && w.tid != worker && v.ok)
+                fail19(v, "write-on-caller-thread",
+                       "asynchronous logging is configured but thread T" + std::to_string(w.tid)
+                               + " (not the logger thread) wrote to " + w.path);
+    } else if (worker >= 0) {
+        fail19(v, "async-mismatch", "synchronous logging is configured but a logger thread was started");
+    }
+
+    // ---- console ------------------------------------------------------------------------------
+    auto out_lines = classify(file_lines(rundir + "/stdout.txt"), calls);
+    auto err_lines = classify(file_lines(rundir + "/stderr.txt"), calls);
+    std::map<int, int> cnt_out, cnt_err;
+    OutputCheck so { "stdout", cfg.n_stdout, false, true };
+    check_output(v, so, out_lines, calls, cfg, &cnt_out);
+    OutputCheck se { "stderr", cfg.n_stderr + cfg.n_platform, false, true };
+    check_output(v, se, err_lines, calls, cfg, &cnt_err);
+    int stray_out = 0, stray_err = 0;
+    for (auto &l : out_lines)
+        if (l.cid < 0 && !l.plain.empty())
+            stray_out++;
+    for (auto &l : err_lines)
+        if (l.cid < 0 && !l.plain.empty())
+            stray_err++;
+    if (cfg.n_stdout == 0 && stray_out > 0)
+        fail19(v, "output-not-configured", "stdout is not configured but holds '" + clip(out_lines[0].plain, 80) + "'",
+               "output-not-configured/stdout");
+
+    // colour: a sink colours a whole line iff colour is configured and the descriptor is a terminal
+    auto coloured_whole = [&](const Line &l) {
+        const Call19 &c = calls[l.cid];
+        std::string pre = color_prefix(c.op->a);
+        static const std::string reset = "\033[0m";
+        return l.raw.size() >= pre.size() + reset.size() && l.raw.compare(0, pre.size(), pre) == 0
+                && l.raw.compare(l.raw.size() - reset.size(), reset.size(), reset) == 0
+                && strip_ansi(l.raw.substr(pre.size(), l.raw.size() - pre.size() - reset.size())) == l.plain;
+    };
+    if (cfg.ini && v.ok) {
+        for (auto &l : out_lines) {
+            if (l.cid < 0)
+                continue;
+            bool col = l.nseq > 0;
+            if (cfg.stdout_colour ? !coloured_whole(l) : col)
+                fail19(v, "wrong-colour",
+                       std::string("stdout line for ") + mname(calls[l.cid]) + (cfg.stdout_colour ? " is not" : " is")
+                               + " coloured (stdout_color " + (cfg.stdout_colour ? "set and a terminal" : "not set or not a terminal")
+                               + ")",
+                       "wrong-colour/stdout");
+        }
+        std::map<int, int> ncol;
+        for (auto &l : err_lines) {
+            if (l.cid < 0)
+                continue;
+            if (l.nseq > 0) {
+                if (!coloured_whole(l))
+                    fail19(v, "wrong-colour", "stderr line for " + mname(calls[l.cid]) + " carries malformed colour codes",
+                           "wrong-colour/stderr");
+                ncol[l.cid]++;
+            }
+        }
+        for (auto &kv : calls) {
+            if (!kv.second.passes || kv.second.ret < 0)
+                continue;
+            int n = ncol.count(kv.first) ? ncol[kv.first] : 0;
+            int lo = (cfg.n_stderr && cfg.stderr_colour) ? 1 : 0;
+            int hi = lo + ((cfg.n_platform && cfg.tty2) ? 1 : 0); // the platform sink's colouring is not specified
+            if (n < lo || n > hi)
+                fail19(v, "wrong-colour",
+                       "stderr: " + std::to_string(n) + " coloured copies of " + mname(kv.second) + ", expected "
+                               + std::to_string(lo) + (hi > lo ? ".." + std::to_string(hi) : ""),
+                       "wrong-colour/stderr");
+        }
+    }
+
+    // ---- syslog -----------------------------------------------------------------------------------
+    {
+        std::map<int, int> cnt;
+        std::vector<int> order;
+        for (auto &s : sys) {
+            int cid = map_line(s.text, calls);
+            if (cid < 0)
+                continue;
+            const Call19 &c = calls[cid];
+            if (cnt[cid]++ == 0)
+                order.push_back(cid);
+            std::string cat = kCategories[c.op->b % kNumCategories];
+            std::string want = cat == "default" ? c.text : cat + ": " + c.text;
+            int prio = c.op->a == 0 ? 7 : c.op->a == 4 ? 6 : c.op->a == 1 ? 4 : c.op->a == 2 ? 3 : 0;
+            if (s.text != want || s.prio != prio)
+                fail19(v, "wrong-format",
+                       "syslog: message " + mname(c) + " sent as priority " + std::to_string(s.prio) + " '" + clip(s.text, 80)
+                               + "', expected priority " + std::to_string(prio) + " '" + clip(want, 80) + "'",
+                       "wrong-format/syslog");
+        }
+        for (auto &kv : calls) {
+            if (kv.second.ret < 0)
+                continue;
+            int n = cnt.count(kv.first) ? cnt[kv.first] : 0;
+            int want = (cfg.syslog && kv.second.passes) ? 1 : 0;
+            if (n != want)
+                fail19(v, n > want ? (cfg.syslog ? (kv.second.passes ? "duplicate-output" : "filtered-message-delivered") : "output-not-configured") : "missing-output",
+                       "syslog: message " + mname(kv.second) + " sent " + std::to_string(n) + " times, expected " + std::to_string(want),
+                       std::string(n > want ? (cfg.syslog ? (kv.second.passes ? "duplicate-output" : "filtered-message-delivered") : "output-not-configured") : "missing-output") + "/syslog");
+        }
+        std::map<int, int> last;
+        for (int cid : order) {
+            const Call19 &c = calls[cid];
+            if (last.count(c.producer) && last[c.producer] > c.opidx)
+                fail19(v, "reordered-output", "syslog: messages of thread " + std::to_string(c.producer) + " are out of order",
+                       "reordered-output/syslog");
+            last[c.producer] = c.opidx;
+        }
+        if (cfg.syslog && (idents.empty() || idents.back() != cfg.ident))
+            fail19(v, "wrong-syslog-ident", "syslog was not opened with the configured identifier '" + cfg.ident + "'");
+        if (!cfg.syslog && !idents.empty())
+            fail19(v, "output-not-configured", "syslog was opened although syslog_ident is not set", "output-not-configured/syslog");
+    }
+
+    // ---- log files ------------------------------------------------------------------------------------
+    auto segs = logdir::read_log_dir(rundir + "/logs", "app", "log");
+    int rotated = 0;
+    if (!cfg.file) {
+        if (!logdir::list_files(rundir + "/logs").empty())
+            fail19(v, "output-not-configured", "no log file path is configured but the log directory is not empty",
+                   "output-not-configured/file");
+    } else {
+        std::vector<std::string> raw;
+        for (auto &s : segs) {
+            if (!s.decode_ok) {
+                fail19(v, "bad-gzip", "file " + s.name + ": " + s.decode_err);
+                break;
+            }
+            if (s.rn.ok)
+                rotated++;
+            auto l = logdir::split_lines(s.content);
+            raw.insert(raw.end(), l.begin(), l.end());
+            if (s.rn.ok && s.rn.gz != cfg.compress)
+                fail19(v, "wrong-compression",
+                       std::string("rotated file ") + s.name + (cfg.compress ? " is not compressed although compression is configured"
+                                                                            : " is compressed although compression is not configured"));
+        }
+        auto lines = classify(raw, calls);
+        bool at_limit = cfg.rotating && cfg.N >= 2 && (int)segs.size() >= cfg.N;
+        // one-line configuration: the pretty formatter's alignment depends on every earlier message, some
+        // of which retention may have removed from the files; there the text is checked on the console
+        // and the file is compared with the console below
+        OutputCheck fo { "file", 1, at_limit, cfg.ini };
+        std::map<int, int> cnt_file;
+        check_output(v, fo, lines, calls, cfg, &cnt_file);
+        for (auto &l : lines)
+            if (l.cid >= 0 && l.nseq > 0)
+                fail19(v, "colour-in-file", "the log file line for " + mname(calls[l.cid]) + " contains terminal colour codes");
+        // pre-existing content is kept (unless retention removed whole files)
+        if (cfg.pre > 0) {
+            int want = 0;
+            for (int b = 0; b < cfg.pre; b += 18)
+                want++;
+            int have = 0;
+            for (auto &l : lines)
+                if (l.plain == "pre-existing line")
+                    have++;
+            if (have != want && !(at_limit && have == 0))
+                fail19(v, "preexisting-content-lost",
+                       "the log file held " + std::to_string(want) + " lines before the run; " + std::to_string(have)
+                               + " of them are left");
+            // start-up rotation: the old content must sit in a rotated file of its own
+            bool wrote = false; // the sink initialises (and rotates) lazily, with its first record
+            for (auto &l : lines)
+                if (l.cid >= 0)
+                    wrote = true;
+            if (cfg.rotating && cfg.startup && cfg.N != 1 && have > 0 && wrote) {
+                bool mixed = false;
+                for (auto &s : segs) {
+                    bool has_pre = s.content.find("pre-existing line\n") != std::string::npos;
+                    bool has_msg = false;
+                    for (auto &ln : logdir::split_lines(s.content))
+                        if (map_line(strip_ansi(ln), calls) >= 0)
+                            has_msg = true;
+                    if (has_pre && (has_msg || !s.rn.ok))
+                        mixed = true;
+                }
+                if (mixed)
+                    fail19(v, "no-startup-rotation",
+                           "rotation on start-up is configured but the content that existed before the run was not rotated away");
+            }
+        }
+        if (!(cfg.rotating) && rotated > 0)
+            fail19(v, "unexpected-rotation", "neither a size limit nor start-up/daily rotation is configured but rotated files exist");
+        if (cfg.rotating && !cfg.startup && !cfg.daily && cfg.L <= 0 && rotated > 0)
+            fail19(v, "unexpected-rotation", "no rotation trigger is configured but rotated files exist");
+        if (cfg.rotating && cfg.N == 1 && rotated > 0)
+            fail19(v, "unexpected-rotation", "the file-count limit is 1 but rotated files exist");
+        if (cfg.rotating && cfg.L > 0 && cfg.N != 1)
+            for (auto &s : segs) {
+                auto ls = logdir::split_lines(s.content);
+                if (s.content.find("pre-existing line\n") != std::string::npos)
+                    continue; // not (only) written by this sink
+                if ((long)s.content.size() > cfg.L && ls.size() > 1)
+                    fail19(v, "size-limit-ignored",
+                           "file " + s.name + " holds " + std::to_string(s.content.size()) + " bytes in "
+                                   + std::to_string(ls.size()) + " records; max_file_size is " + std::to_string(cfg.L));
+            }
+        if (cfg.rotating && cfg.N >= 2 && (int)segs.size() > cfg.N)
+            fail19(v, "count-limit-ignored",
+                   std::to_string(segs.size()) + " log files exist; max_file_count is " + std::to_string(cfg.N));
+
+        // one-line configuration: the file is the console text minus its colour codes, line for line
+        if (!cfg.ini && v.ok) {
+            std::vector<std::string> con, fil;
+            for (auto &l : err_lines)
+                if (l.cid >= 0)
+                    con.push_back(l.plain);
+            for (auto &l : lines)
+                if (l.cid >= 0)
+                    fil.push_back(l.plain);
+            // retention may have removed the oldest file lines: compare the tails
+            size_t k = std::min(con.size(), fil.size());
+            bool same = at_limit ? true : con.size() == fil.size();
+            for (size_t i = 0; i < k && same; i++)
+                if (con[con.size() - 1 - i] != fil[fil.size() - 1 - i])
+                    same = false;
+            if (!same)
+                fail19(v, "file-differs-from-console",
+                       "one-line configuration: the log file is not the console text minus colour codes (console "
+                               + std::to_string(con.size()) + " lines, file " + std::to_string(fil.size()) + " lines)");
+            int coloured = 0;
+            for (auto &l : err_lines)
+                if (l.cid >= 0 && l.nseq > 0)
+                    coloured++;
+            v.probes["console_lines_with_colour"] = coloured;
+        }
+        v.probes["rotated_files"] = rotated;
+        v.probes["file_lines"] = (int)lines.size();
+    }
+
+    int npass = 0, nrej = 0;
+    for (auto &kv : calls)
+        (kv.second.passes ? npass : nrej)++;
+    v.probes["messages_passing_filters"] = npass;
+    v.probes["messages_rejected_by_filters"] = nrej;
+    v.probes["stdout_lines"] = (int)out_lines.size();
+    v.probes["stderr_lines"] = (int)err_lines.size();
+    v.probes["stray_stderr_lines"] = stray_err;
+    v.probes["syslog_messages"] = (int)sys.size();
+    v.probes["async_runs"] = cfg.async ? 1 : 0;
+    v.probes["tty_stdout"] = cfg.tty1;
+    v.probes["tty_stderr"] = cfg.tty2;
+    v.probes["ini_runs"] = cfg.ini ? 1 : 0;
+    v.probes["oneline_runs"] = cfg.ini ? 0 : 1;
     return v;
 }
 
